@@ -1145,15 +1145,22 @@ def c20_check(pid, tier, replay_file=None):
             cov['model_runs'].append({'config': 'liveness ListenReturns', 'distinct_states': r['distinct'], 'states_generated': r['states']})
         # 2. every deviation of the catalogue: a counterexample in the model, replayed on the real objects with the intended expectations
         cov['deviations'] = {}
-        for d, (uc, inv) in lf.DEVS.items():
-            acts, r = lf.deviation_schedule(wd, d, d)
+        from concurrent.futures import ThreadPoolExecutor
+        def one_dev(item):
+            d, (uc, inv) = item
+            sub = os.path.join(wd, 'dev_' + d)
+            os.makedirs(sub, exist_ok=True)
+            acts, r = lf.deviation_schedule(sub, d, d)
             if acts is None:
                 raise Machinery('Lifecycle.tla: deviation %s does not violate %s (vacuity)' % (d, inv))
-            sc = lf.intended_expectations(wd, acts, uc, 'dev_' + d)
+            sc = lf.intended_expectations(sub, acts, uc, 'dev_' + d)
             if sc is None:
                 raise Machinery('Lifecycle.tla: the counterexample of %s cannot be followed by the intended design' % d)
-            cov['deviations'][d] = {'violates': inv, 'schedule': [(s['a'], s['c']) for s in sc['steps']]}
-            scheds.append(sc)
+            return d, inv, sc
+        with ThreadPoolExecutor(max_workers=6) as ex:
+            for d, inv, sc in ex.map(one_dev, list(lf.DEVS.items())):
+                cov['deviations'][d] = {'violates': inv, 'schedule': [(s['a'], s['c']) for s in sc['steps']]}
+                scheds.append(sc)
         # 3. behaviours of the intended design (run to their terminal states: everything closed MaxRepeat times)
         n = 150 if big else 40
         k = 0
